@@ -107,6 +107,8 @@ impl TextSize {
 }
 ''', note='ast::{TimingLiteral,Identifier,Literal,SyntaxNode,TokenText} as validate_timing_literal sees them (trusted, rowan)')
     va = U.file('crates/oq3_syntax/src/validation.rs')
+    for _fn in ('validate', 'validate_literal'):
+        va.guard(_fn, None, why='validation.rs::%s (match_ast! over descendants / unescape callbacks: closures) is not verified; it only adds diagnostics, whose ranges C12 is about' % _fn)
     va.fn('validate_timing_literal', props=P, spec='''
 requires old(errors)@.len() < usize::MAX, timing_literal.sp_identifier() is Some /* AP: a TIMING_LITERAL is a literal followed by an identifier */,
 ensures
